@@ -8,7 +8,7 @@ import "fmt"
 // correctly - never silently wrong.
 
 // LimitKinds lists the generated shapes.
-var LimitKinds = []string{"locals", "params", "free", "free-returned", "free-nested", "selectors", "array-literal", "long-if", "long-loop", "long-logical", "consts-closure", "globals-selstore", "map-literal", "consts-dup"}
+var LimitKinds = []string{"locals", "params", "free", "free-returned", "free-nested", "selectors", "array-literal", "long-if", "long-loop", "long-logical", "consts-closure", "globals-selstore", "map-literal", "consts-dup", "spread-args"}
 
 // LimitSizes are the boundary sizes per kind.
 func LimitSizes(kind string) []int {
@@ -17,6 +17,9 @@ func LimitSizes(kind string) []int {
 		return []int{254, 255, 256, 257, 258, 300, 513}
 	case "params":
 		return []int{253, 254, 255, 256, 257}
+	case "spread-args":
+		// n written arguments, the last one spread
+		return []int{254, 255, 256, 257}
 	case "free", "free-returned", "free-nested":
 		return []int{254, 255, 256, 257}
 	case "long-if", "long-loop", "long-logical":
@@ -62,6 +65,16 @@ func Limits(kind string, n int) *Program {
 		}
 		body := []Stmt{&Return{X: &ArrayLit{Elems: []Expr{I(v(0)), I(v(1)), I(v(n - 2)), I(v(n - 1))}}}}
 		return &Program{Main: []Stmt{Def("f", &FuncLit{Params: ps, Body: body}), Def("out", C(I("f"), args...))}}
+	case "spread-args":
+		var args []Expr
+		for i := 0; i < n-1; i++ {
+			args = append(args, N(fmt.Sprint(i)))
+		}
+		args = append(args, I("xs"))
+		body := []Stmt{&Return{X: &ArrayLit{Elems: []Expr{C(I("len"), I("r")), &Index{X: I("r"), I: N("0")}, &Index{X: I("r"), I: N(fmt.Sprint(n - 2))}}}}}
+		return &Program{Main: []Stmt{Def("xs", &ArrayLit{Elems: []Expr{N("7"), N("8")}}),
+			Def("f", &FuncLit{Params: []string{"r"}, VarArgs: true, Body: body}),
+			Def("out", &Call{F: I("f"), Args: args, Spread: true}), Set(I("f"), Undef())}}
 	case "free":
 		// outer defines n locals; inner closure captures all of them
 		var body []Stmt
